@@ -116,6 +116,22 @@ CLAIMS = {
             "(NIST + extended + lattice, every public test function registered); CombinedPValue has the four-case Fisher shape.",
             "Not decided: that good generators pass and the documented weak ones fail (statistics on runtime values).",
             "DESIGN.md section 3 C13"),
+    "C14": ("other", "piecewise power-of-two exponent extraction + small linear-arithmetic prover; region equivalence of the domain guards; writer/reader agreement across the Python/C++ boundary (regex/brace scan)",
+            "Decides the second sentence of the property completely: LfsrCount equals 2^min(2m-1, 2n-2m) for 1 <= m <= n, 1 for m = 0 and 0 outside 0 <= m <= n, n >= 1; "
+            "LfsrLogProbability equals that exponent minus n and raises outside the domain (piece by piece, with the split m <= n // 2 justified by the floor lemma); "
+            "the reference distribution is cross-validated in the checker by a textbook Berlekamp-Massey over all sequences up to length 11 (14 thorough). "
+            "And one interface clause that is a necessary condition of the first sentence: byte order, bit-length unit, range checks and exported name agree between "
+            "LinearComplexity (Python), LfsrLength/LfsrLengthStr (C++), the pybind stub and setup.py.",
+            "NOT decided: that the native (CLMUL / word-shift) and pure-Python Berlekamp-Massey routines return the shortest-LFSR length and agree - equality of three numerical algorithms over 64-bit word arithmetic; a Python-ast engine does not parse C++ semantics.",
+            "DESIGN.md section 3 C14 and section 4"),
+    "C17": ("other", "effect (who-may-write) analysis over the whole package + loop-carried dependence analysis through loop-head symbols + cache descriptor/content agreement",
+            "Decides independence of state, the structural part of the property: no function reachable from a Check writes instance or module-level state outside constructors, "
+            "except seven frozen entries (three EcCurve caches, a per-key Generator object) and the registry singletons; in the 17 checks that judge artifacts individually no "
+            "variable other than the boolean accumulator is read in an iteration before it is reassigned (so nothing flows from one artifact to the next); the cached baby-step table "
+            "always matches its stored size, is rebuilt only when a larger one is requested, and the multiples memo maps k to Multiply(g, k); BatchGCD maps results by value; "
+            "per-curve partitions are disjoint filters mapped back by their own index.",
+            "Not decided: permutation-equivariance of LLL-based guesses (the set -> list order of signatures feeds the lattice) - a runtime property.",
+            "DESIGN.md section 3 C17"),
     "C16": ("other", "typestate / who-may-write analysis over the AST + symbolic path walk of all 24 Check bodies",
             "Decides, for every path of every Check body in the package, that each loop iteration records exactly one "
             "result entry on that iteration's artifact with an entry created in the same iteration, that the positive flag, "
